@@ -58,7 +58,15 @@ def case_strategy(draw: Any) -> Dict[str, Any]:
     ops = []
     for _ in range(draw(st.integers(0, 10))):
         kind = draw(st.sampled_from(["wu_stream", "wu_stream", "wu_conn", "wu_conn",
-                                     "settings_win", "rst", "sleep", "prio", "settle"]))
+                                     "settings_win", "rst", "sleep", "prio", "settle",
+                                     "wu_prio"]))
+        if kind == "wu_prio":
+            # credit for a stream and a PRIORITY frame for it in one write: the reader handles
+            # both before the send task runs
+            s_ = draw(st.integers(0, n - 1))
+            ops.append({"op": "wu_stream", "s": s_, "join": True,
+                        "n": draw(st.sampled_from([16384, 65535, 200000]))})
+            kind = "prio_same"
         if kind == "wu_stream":
             ops.append({"op": kind, "s": draw(st.integers(0, n - 1)),
                         "n": draw(st.sampled_from([1, 2, 100, 16384, 65535, 200000]))})
@@ -71,8 +79,8 @@ def case_strategy(draw: Any) -> Dict[str, Any]:
             ops.append({"op": kind, "s": draw(st.integers(0, n - 1))})
         elif kind == "sleep":
             ops.append({"op": kind, "dt": draw(st.sampled_from([0.05, 0.5, 2.0]))})
-        elif kind == "prio":
-            s_ = draw(st.integers(0, n - 1))
+        elif kind in ("prio", "prio_same"):
+            s_ = ops[-1]["s"] if kind == "prio_same" else draw(st.integers(0, n - 1))
             ops.append({"op": kind, "s": s_,
                         "dep": draw(st.integers(0, s_)), "weight": draw(st.integers(1, 256)),
                         "excl": draw(st.booleans())})
